@@ -67,6 +67,7 @@ def run(tier, seed):
         dist["model_ext:" + ",".join(sorted({os.path.splitext(m)[1] for m in r["models"]}))] += 1
         dist["pattern:" + c.get("migrationFilenamePattern", "%04v_%m")] += 1
         dist["dirs:" + c["modelsDir"]] += 1
+        dist["migrations_dir:" + c["migrationsDir"]] += 1
         dist["revision:" + o["rev"] + (":refused" if o["rev_refused"] else ":no-terminal" if o["rev_noterm"] else "")] += 1
         dist["revision_input:" + ("pty" if r["tty"] else "fill-with" if r["fills"] else "none")] += 1
         dist["status:" + o["status"]] += 1
